@@ -8,7 +8,7 @@ VIEW View
 CHECK_DEADLOCK FALSE
 CONSTANT NF = 2
 CONSTANT Methods = {"default", "lsq_linear", "lsq", "fix_stress"}
-CONSTANT MaxDepth = 6
+CONSTANT MaxDepth = 5
 INVARIANT AlignedX
 INVARIANT KeyedStoresX
 INVARIANT PureResultsX
